@@ -86,6 +86,7 @@ class Interp:
         self.subject_adt = subject_adt
         # site_values: {(body id, bb): abstract value} forced results of particular call sites
         self.site_values = site_values or {}
+        self._cur_body = None
         # forced: {body id: {local: abstract value}} -- every executable assignment to the local yields that value
         self.forced = {}
 
@@ -122,6 +123,17 @@ class Interp:
     def eval_operand(self, env, op):
         if op[0] == "k":
             ty, txt, _fn, ival = op[1], op[2], op[3], op[4]
+            if txt.endswith("]") and "::promoted[" in txt and self._cur_body is not None:
+                try:
+                    k = int(txt[txt.rindex("[") + 1:-1])
+                except ValueError:
+                    return TOP
+                pb = self._cur_body.promoted_body(k) if txt.startswith(self._cur_body.id.split("::promoted[")[0]) or True else None
+                if pb is not None and self.depth < 8:
+                    sub = Interp(self.facts, self.variant, self.subject_calls, self.depth + 1, self.memo, self.call_models,
+                                 self.subject_adt, self.site_values)
+                    return sub.run(pb).ret
+                return TOP
             if ty == "bool" and ival is not None:
                 return ("b", ival == "1")
             if ival is not None:
@@ -258,6 +270,19 @@ class Interp:
                 want = {"is_err": 1, "is_ok": 0, "is_some": 1, "is_none": 0}[short.rsplit("::", 1)[1]]
                 return ("b", a[2] == want)
             return TOP
+        # derived equality between the subject and a value of known variant
+        d = t["f"].get("def")
+        if d in ("std::cmp::PartialEq::eq", "std::cmp::PartialEq::ne") and len(args) == 2 and self.variant >= 0:
+            a, b2 = args
+            other = b2 if a == SUBJ else (a if b2 == SUBJ else None)
+            if other is not None and other[0] == "enum" and other[1] == self.subject_adt:
+                im = self.facts.impl_of("std::cmp::PartialEq", self.subject_adt)
+                if im is not None and im["derived"]:
+                    if other[2] != self.variant:
+                        return ("b", d.endswith("::ne"))
+                    if not other[4]:
+                        return ("b", d.endswith("::eq"))
+            return TOP
         # crate-local function receiving the subject operation: interpret it under the same assumption
         cb = self.facts.bodies.get(name)
         if cb is not None and SUBJ in args and self.depth < 6:
@@ -290,6 +315,7 @@ class Interp:
 
     # -------------------------------------------------------------- driver
     def run(self, body, params=None):
+        self._cur_body = body
         env = {}
         for l in range(1, body.argc + 1):
             env[l] = TOP
